@@ -34,7 +34,7 @@ def main(argv):
     try:
         import others
         table.update(others.TABLE)
-        queuefam.EXTRA_PLANS["C12"] = [others.LIMITS, others.RELOAD_SWEEPS]
+        queuefam.EXTRA_PLANS["C12"] = [others.LIMITS, others.RELOAD_SWEEPS, others.CONCX]
         queuefam.EXTRA_PLANS["C02"] = [others.RELOAD_SWEEPS]
         queuefam.EXTRA_PLANS["C03"] = [others.LEASECONC, others.PULLOPS]
         queuefam.EXTRA_PLANS["C04"] = [others.PULLOPS, others.LEASECONC]
